@@ -1,5 +1,5 @@
 CONSTANTS
-  Docs = {1, 2, 3, 4}
+  Docs = {1, 2, 3, 4, 5}
   Repeats = 3
 INIT Init
 NEXT Next
